@@ -217,7 +217,7 @@ CHECKS = {
         "uncovered": [
             "mut_arrays_remaining_elements: termination and completeness (every tree is filled; cyclic quote sets of the right count are rejected) are NOT proved (bounded probe only); its three selection expressions (iterator chains choosing the node and the open pairs) are ASSUMED contracts",
             "create_fx_array: its body is under the relational contract lift_post (C10: lifting, naming, conversion, seeding + filling through `_g` stand-ins of the two generic callees); that the stand-ins are the Rg-instances proved here is a declared link, not a proof; existence of a potential vector for a tree of quotes is textbook and not machine-checked",
-            "independence of quote order and base currency: bounded probe only",
+            "independence of quote order and base currency: proved CONDITIONALLY (lemma_fx_order_independent): two completed fills of markets that share a potential (an assignment of invertible elements to currencies with quote * p(dom) == p(for)) agree on every ordered pair of currencies; that a tree of quotes HAS a potential is textbook and not machine-checked; unconditional exploration by the bounded probe",
         ],
     },
     "C10": {
@@ -276,7 +276,7 @@ CHECKS = {
             "polynomial reproduction (Marsden's identity): not expressible here without a formalised spline theory; bounded probe only",
             "dual DATA: proved in the abstract module as superposition (value at x == sum_p S_p(x) * y_p with S_p the spline solved on the unit data e_p; lemma_spline_superposition, from csolve's uniqueness postcondition); that the coefficient of datum p's own variable in a Dual/Dual2 datum is 1, and hence the sensitivity IS S_p(x), is the module-axiom reading of Dual/Dual2 (assumed) and is exercised by the bounded probe",
             "least-squares mode: only the error returns are covered",
-            "dual abscissa: PPSpline<f64>::ppdnev_single_dual / ppdnev_single_dual2 ARE under contract (value S_m(x), gradient S_(m+1)(x)*grad x, Hessian by the chain rule with S_(m+1), S_(m+2), where S_j is what ppdnev_single(x, j) returns); PPSpline<f64>::mapped_value (the dispatch on the kind of abscissa) is under contract too; the same methods of PPSpline<Dual> / PPSpline<Dual2> (dual coefficients AND dual abscissa, through dmul11_) are covered by the bounded probe only",
+            "dual abscissa: PPSpline<f64>::ppdnev_single_dual / ppdnev_single_dual2 ARE under contract (value S_m(x), gradient S_(m+1)(x)*grad x, Hessian by the chain rule with S_(m+1), S_(m+2), where S_j is what ppdnev_single(x, j) returns); PPSpline<f64>::mapped_value (the dispatch on the kind of abscissa) is under contract too; PPSpline<Dual>::ppdnev_single_dual and PPSpline<Dual2>::ppdnev_single_dual2 (dual coefficients AND dual abscissa, through dmul11_) are under contract as well (value, gradient = coefficients' own sensitivities weighted by the basis + the spline's derivative times the abscissa's gradient, and the full second-order formula); their mapped_value dispatchers and the two refusing type combinations are covered by the bounded probe only",
         ],
     },
     "C07": {
